@@ -37,6 +37,7 @@ pub struct ZarrAsyncTraceStorage {
     param_types: Vec<(String, ItemType)>,
     draw_types: Vec<(String, ItemType)>,
     event_dim_of_stat: HashMap<String, String>,
+    store_warmup: bool,
     rt_handle: tokio::runtime::Handle,
 }
 
@@ -48,6 +49,7 @@ pub struct ZarrAsyncChainStorage {
     chain: u64,
     last_sample_was_warmup: bool,
     event_dim_of_stat: HashMap<String, String>,
+    store_warmup: bool,
     warmup_event_counts: HashMap<String, u64>,
     pending_writes: Arc<tokio::sync::Mutex<JoinSet<Result<()>>>>,
     rt_handle: tokio::runtime::Handle,
@@ -281,6 +283,7 @@ impl ZarrAsyncChainStorage {
         chain: u64,
         rt_handle: tokio::runtime::Handle,
         event_dim_of_stat: HashMap<String, String>,
+        store_warmup: bool,
     ) -> Self {
         let draw_buffers: HashMap<String, SampleBuffer> = draw_types
             .iter()
@@ -301,6 +304,7 @@ impl ZarrAsyncChainStorage {
             chain,
             last_sample_was_warmup: true,
             event_dim_of_stat,
+            store_warmup,
             warmup_event_counts: HashMap::new(),
             pending_writes: Arc::new(tokio::sync::Mutex::new(JoinSet::new())),
             // We allow up to the number of arrays in pending writes, so
@@ -414,6 +418,9 @@ impl ChainStorage for ZarrAsyncChainStorage {
         draws: Vec<(&str, Option<Value>)>,
         info: &Progress,
     ) -> Result<()> {
+        if info.tuning && !self.store_warmup {
+            return Ok(());
+        }
         let is_first_draw = self.last_sample_was_warmup && !info.tuning;
         if is_first_draw {
             self.warmup_event_counts = event_counts(&self.event_dim_of_stat, &self.stats_buffers);
@@ -664,7 +671,12 @@ impl StorageConfig for ZarrAsyncConfig {
         let rt_handle = handle.clone();
         handle.block_on(async move {
             let n_chains = settings.num_chains() as u64;
-            let n_tune = settings.hint_num_tune() as u64;
+            // without warmup storage the warmup arrays stay empty
+            let n_tune = if self.store_warmup {
+                settings.hint_num_tune() as u64
+            } else {
+                0
+            };
             let n_draws = settings.hint_num_draws() as u64;
 
             let param_types = settings.stat_types(math);
@@ -861,6 +873,7 @@ impl StorageConfig for ZarrAsyncConfig {
                 draw_types,
                 draw_chunk_size,
                 event_dim_of_stat,
+                store_warmup: self.store_warmup,
                 rt_handle,
             })
         })
@@ -881,6 +894,7 @@ impl TraceStorage for ZarrAsyncTraceStorage {
             chain_id as _,
             self.rt_handle.clone(),
             self.event_dim_of_stat.clone(),
+            self.store_warmup,
         ))
     }
 
